@@ -347,9 +347,12 @@ class ExcelOpxWrapper(ExcelWrapper):
             # work around type coercion to datetime that causes some issues
 
             if address.is_unbounded_range:
-                # bound the address range to the data in the spreadsheet
+                # bound the address range to the data in the spreadsheet,
+                # a column/row past the data is bounded in the other direction
+                max_col, max_row = self.max_col_row(sheet.title)
                 address = address & AddressRange(
-                    (1, 1, *self.max_col_row(sheet.title)),
+                    (1, 1, max(max_col, address.end.col_idx),
+                     max(max_row, address.end.row)),
                     sheet=sheet.title)
 
             cells = sheet[address.coordinate]
